@@ -293,7 +293,14 @@ class Check:
             except Exception as e:  # noqa
                 im2 = 'EXC:' + type(e).__name__
             st['reevaluated'] = st.get('reevaluated', 0) + 1
-            if im2 != im and not (compare and compare(im2, im)):
+            same2 = im2 == im
+            if not same2 and compare:
+                # comparators are written for (implementation, model); two implementation answers may not fit them
+                try:
+                    same2 = bool(compare(im2, im))
+                except Exception:  # noqa
+                    same2 = False
+            if not same2:
                 st['disagreements'] += 1
                 if len([f for f in self.failures if f['oracle'] == name + '/re-evaluation']) < max_report:
                     self.failures.append({'oracle': name + '/re-evaluation', 'case': _jsonable(c),
